@@ -44,6 +44,14 @@ func (p *BinaryProtocol) Skip(wireType proto.WireType, useNative bool) (err erro
 func (p *BinaryProtocol) SkipAllElements(fieldNumber proto.FieldNumber, ispacked bool) (size int, err error) {
 	size = 0
 	if ispacked {
+		// scalar elements are not always packed ([packed = false]): the wire type of the tag tells the layout
+		_, wt, _, err := p.ConsumeTagWithoutMove()
+		if err != nil {
+			return -1, err
+		}
+		ispacked = wt == proto.BytesType
+	}
+	if ispacked {
 		if _, _, _, err := p.ConsumeTag(); err != nil {
 			return -1, err
 		}
